@@ -89,6 +89,53 @@ fn check_case_fmt(c: &NetCase, obs: &mut Obs, format: FilterFormat) -> Result<()
     Ok(())
 }
 
+/// Large same-shape groups: engine (optimisation off AND on) vs the per-rule scan. The scan
+/// shares one RegexManager for the whole case (each parsed rule keeps its address), so every
+/// rule's regex is compiled once.
+pub fn check_big_group(c: &NetCase, obs: &mut Obs) -> Result<(), String> {
+    use adblock::filters::network::NetworkMatchable;
+    let res = gen::std_resources();
+    let tag_refs: Vec<&str> = c.tags.iter().map(|s| s.as_str()).collect();
+    let tags: HashSet<String> = c.tags.iter().cloned().collect();
+    let parsed = parse_network(&c.rules);
+    let active = active_rules(&parsed);
+    let mut rm = adblock::regex_manager::RegexManager::default();
+    let reqs: Vec<_> = c.reqs.iter().filter_map(|r| mk_request(r).map(|q| (r, q))).collect();
+    let specs: Vec<_> = reqs
+        .iter()
+        .map(|(r, q)| {
+            let hits: Vec<&Parsed> = active.iter().filter(|p| p.f.matches(q, &mut rm)).cloned().collect();
+            (hits.len(), combine(&hits, &tags, q, &r.url, &res))
+        })
+        .collect();
+    for optimize in [false, true] {
+        let mut engine = build_engine(&c.rules, false, optimize, &res);
+        engine.use_tags(&tag_refs);
+        // two passes: the second one runs against whatever the first left in the engine's caches
+        for pass in 0..2 {
+            for ((r, q), (nh, spec)) in reqs.iter().zip(specs.iter()) {
+                obs.inner_evals += 1;
+                if *nh > 0 {
+                    obs.nontrivial = true;
+                }
+                let got = Verdict::of(&engine.check_network_request(q));
+                if let Err(e) = spec.agrees(&got) {
+                    return Err(format!("{} rules, optimize={}, pass {}: request {:?}: {}", c.rules.len(), optimize, pass, r, e));
+                }
+            }
+        }
+    }
+    obs.label(match c.rules.len() {
+        0..=16 => "group<=16",
+        17..=64 => "group17-64",
+        65..=128 => "group65-128",
+        129..=256 => "group129-256",
+        257..=512 => "group257-512",
+        _ => "group>512",
+    });
+    Ok(())
+}
+
 pub fn decode(t: &mut Tape) -> NetCase {
     gen::net_case(t, &NetCfg::default())
 }
@@ -102,7 +149,7 @@ pub fn decode_hosts(t: &mut Tape) -> NetCase {
 }
 
 pub fn check(ctx: &mut Ctx) {
-    ctx.rule = "lists of 1-16 (sub-check big: up to 150) network rules cut from a pool of 1-4 generated URLs at arbitrary byte offsets (plain, |, ||host, ^/*, /regex/, options, exceptions, tags, badfilter twins, duplicates, junk lines) x tag subset x 1-8 requests from the same pool (1/3 perturbed by one edit); hosts: hosts-format lists; shared-token: 2-25 rules sharing one token with per-rule variation of options/tags/exception; tokenless: rules with no indexable token (fallback bucket); long-url: URLs of 40-126 tokens and hosts of up to 14 labels with rules cut from the tail of the URL; real-lists: slices of the lists under /repo/data. A case is non-trivial when at least one parsed rule matches a request in the per-rule linear scan; distinct = distinct (rules, tags, requests) texts.".into();
+    ctx.rule = "lists of 1-16 (sub-check big: up to 150) network rules cut from a pool of 1-4 generated URLs at arbitrary byte offsets (plain, |, ||host, ^/*, /regex/, options, exceptions, tags, badfilter twins, duplicates, junk lines) x tag subset x 1-8 requests from the same pool (1/3 perturbed by one edit); hosts: hosts-format lists; shared-token: 2-25 rules sharing one token with per-rule variation of options/tags/exception; tokenless: rules with no indexable token (fallback bucket); big-group: 2-800 same-shape rules (sizes around 16/32/64/128/256/512) in one bucket with one request per rule, engine built with optimisation off and on, two passes; long-url: URLs of 40-126 tokens and hosts of up to 14 labels with rules cut from the tail of the URL; real-lists: slices of the lists under /repo/data. A case is non-trivial when at least one parsed rule matches a request in the per-rule linear scan; distinct = distinct (rules, tags, requests) texts.".into();
     ctx.assumptions = vec![
         "per-rule oracle = NetworkFilter::matches with a fresh RegexManager on every successfully parsed line".into(),
         "badfilter cancellation by the library's own ids (C04 checks those ids)".into(),
@@ -123,6 +170,8 @@ pub fn check(ctx: &mut Ctx) {
     drive(ctx, "tokenless", n, 300, &|t| gen::tokenless_case(t), &check_case);
     let n = ctx.tier.pick(40_000, 400_000);
     drive(ctx, "long-url", n, 600, &|t| gen::long_url_case(t), &check_case);
+    let n = ctx.tier.pick(400, 8_000);
+    drive(ctx, "big-group", n, 120, &|t| gen::big_group_case(t), &check_big_group);
     // deterministic slices of the real lists under /repo/data, requests derived from their own rules
     let (per, len) = ctx.tier.pick((2, 1500), (10, 6000));
     for fc in super::c08::real_list_slices(ctx, per, len) {
@@ -138,6 +187,7 @@ pub fn check(ctx: &mut Ctx) {
 pub fn replay(ctx: &mut Ctx, v: &Value) {
     match v.get("check").and_then(|c| c.as_str()) {
         Some("hosts") => replay_file::<NetCase>(ctx, v, &check_case_hosts),
+        Some("big-group") => replay_file::<NetCase>(ctx, v, &check_big_group),
         _ => replay_file::<NetCase>(ctx, v, &check_case),
     }
 }
